@@ -13,6 +13,7 @@ R: every variant through the real compiler and VM: its outcome must be one Tengo
 import json
 
 import semcmp
+import largelib
 import semlib
 import vlib
 
@@ -90,6 +91,8 @@ def run(ck):
             ck.add_sample({"base": base["src"], "variant_fn_iife": [q["src"] for q in grp if q["variant"] == "fn+iife"][0][:1500]})
     ck.extra["bases"] = len(groups)
     ck.extra["variants_agreeing"] = fam_counts
+    # placement in slots whose index needs more than one byte (more than 255 globals, also as block variables)
+    largelib.judge(ck, quick)
     ck.rule = ("base programs (random-clean without closures in global loops, dce) x {function body, module body, IIFE of 3 random "
                "sub-expressions, IIFE of all, function body + IIFE of all, renaming}; non-trivial = distinct variant sources that agree")
     ck.assumptions = ["the transformations are applied to the harness AST; that they preserve the documented meaning is itself checked by TLC per program"]
